@@ -48,7 +48,7 @@ func callName(info *types.Info, e ast.Expr) (string, *ast.CallExpr) {
 		return "", nil
 	}
 	if fn := core.Callee(info, c); fn != nil {
-		return fn.Name(), c
+		return core.RefName(fn), c
 	}
 	return "", c
 }
@@ -72,7 +72,7 @@ func DiffSameRefinement(p *core.Program, r *core.Report, rule string) {
 	ast.Inspect(fd.Decl.Body, func(n ast.Node) bool {
 		if c, ok := n.(*ast.CallExpr); ok {
 			if fn := core.Callee(info, c); fn != nil {
-				switch fn.Name() {
+				switch core.RefName(fn) {
 				case "RefineConnListByDisjointPeers":
 					refines = append(refines, c)
 				case "diffConnectionsLists":
@@ -176,7 +176,7 @@ func DiffClassification(p *core.Program, r *core.Report, rule string) {
 		case *ast.AssignStmt:
 			// d.diffType = XType
 			if len(x.Lhs) == 1 {
-				if fl := core.FieldOf(info, x.Lhs[0]); fl != nil && fl.Name() == "diffType" {
+				if fl := core.FieldOf(info, x.Lhs[0]); fl != nil && core.RefName(fl) == "diffType" {
 					cur = rowInfo{typ: constName(info, x.Rhs[0])}
 					return
 				}
@@ -188,10 +188,10 @@ func DiffClassification(p *core.Program, r *core.Report, rule string) {
 					return
 				}
 				fl := core.FieldOf(info, x.Lhs[0])
-				if fl == nil || !strings.HasSuffix(fl.Name(), "Conns") {
+				if fl == nil || !strings.HasSuffix(core.RefName(fl), "Conns") {
 					return
 				}
-				list := fl.Name()
+				list := core.RefName(fl)
 				first, second, eq := nilAtomFor(f, ".firstConn"), nilAtomFor(f, ".secondConn"), callAtomFor(f, "equalConns(")
 				firstNN := first != "" && facts.Entails(f, facts.Not{X: facts.Atom(first)})
 				firstNil := first != "" && facts.Entails(f, facts.Atom(first))
@@ -207,8 +207,8 @@ func DiffClassification(p *core.Program, r *core.Report, rule string) {
 				}{
 					"changedConns":   {firstNN && secondNN && notEq, "ChangedType", "", "both sides present and not equal"},
 					"unchangedConns": {firstNN && secondNN && isEq, "UnchangedType", "", "both sides present and equal"},
-					"removedConns":   {firstNN && secondNil, "RemovedType", "true," + peers2.Name(), "first side only"},
-					"addedConns":     {firstNil && secondNN, "AddedType", "false," + peers1.Name(), "second side only"},
+					"removedConns":   {firstNN && secondNil, "RemovedType", "true," + core.RefName(peers2), "first side only"},
+					"addedConns":     {firstNil && secondNN, "AddedType", "false," + core.RefName(peers1), "second side only"},
 				}
 				wnt, known := want[list]
 				if !known {
@@ -229,7 +229,7 @@ func DiffClassification(p *core.Program, r *core.Report, rule string) {
 			}
 		case *ast.ExprStmt:
 			if c, ok := x.X.(*ast.CallExpr); ok {
-				if fn := core.Callee(info, c); fn != nil && fn.Name() == "updateNewOrLostFields" && len(c.Args) == 2 {
+				if fn := core.Callee(info, c); fn != nil && core.RefName(fn) == "updateNewOrLostFields" && len(c.Args) == 2 {
 					v, _ := core.ConstString(info, c.Args[0])
 					cur.flags = v + "," + core.ExprStr(c.Args[1])
 				}
@@ -265,7 +265,7 @@ func DiffClassification(p *core.Program, r *core.Report, rule string) {
 			}
 			ast.Inspect(rs.Body, func(m ast.Node) bool {
 				if c, ok := m.(*ast.CallExpr); ok {
-					if fn := core.Callee(info, c); fn != nil && fn.Name() == "update" && len(c.Args) == 3 {
+					if fn := core.Callee(info, c); fn != nil && core.RefName(fn) == "update" && len(c.Args) == 3 {
 						if v, _ := core.ConstString(info, c.Args[1]); v == want {
 							okIn++
 						}
@@ -288,7 +288,7 @@ func DiffClassification(p *core.Program, r *core.Report, rule string) {
 		ast.Inspect(m.Decl.Body, func(n ast.Node) bool {
 			if se, ok := n.(*ast.SelectorExpr); ok {
 				if f := core.FieldOf(m.Pkg.TypesInfo, se); f != nil {
-					reads[f.Name()] = true
+					reads[core.RefName(f)] = true
 				}
 			}
 			return true
@@ -300,7 +300,7 @@ func DiffClassification(p *core.Program, r *core.Report, rule string) {
 		ast.Inspect(m.Decl.Body, func(n ast.Node) bool {
 			if se, ok := n.(*ast.SelectorExpr); ok {
 				if f := core.FieldOf(m.Pkg.TypesInfo, se); f != nil {
-					reads[f.Name()] = true
+					reads[core.RefName(f)] = true
 				}
 			}
 			return true
@@ -348,7 +348,7 @@ func DiffClassification(p *core.Program, r *core.Report, rule string) {
 			}
 			first := facts.Atom("b:" + mw.PathOfVar(msig.Params().At(0)))
 			for i, l := range as.Lhs {
-				if fl := core.FieldOf(minfo, l); fl != nil && strings.HasPrefix(fl.Name(), "newOrLost") {
+				if fl := core.FieldOf(minfo, l); fl != nil && strings.HasPrefix(core.RefName(fl), "newOrLost") {
 					// set to true only under !peersSet[x.String()]
 					v, _ := core.ConstString(minfo, as.Rhs[i])
 					member := false
@@ -631,7 +631,7 @@ func DiffMergeKey(p *core.Program, r *core.Report, rule string) {
 		if !ok || len(c.Args) != 3 {
 			return
 		}
-		if fn := core.Callee(minfo, c); fn == nil || fn.Name() != "update" {
+		if fn := core.Callee(minfo, c); fn == nil || core.RefName(fn) != "update" {
 			return
 		}
 		v, _ := core.ConstString(minfo, c.Args[1])
